@@ -247,5 +247,6 @@ var tokenCatalogue = []string{
 	".", "..", ".a", ".foo_bar", "$x", "$__loc__", "$m::v", "f", "f::g", `"s"`, `"é日本"`, `"s\(1)t"`, `"\(.)"`, "1", "1.5", ".5", "1e3", "100000000000000000000", "@base64", `@json "x\(.)"`,
 	"def", "if", "then", "elif", "else", "end", "as", "reduce", "foreach", "try", "catch", "label", "break", "import", "include", "and", "or", "not", "null", "true", "false", "module", "__loc__",
 	"|", ",", "//", "+", "-", "*", "/", "%", "=", "|=", "+=", "-=", "*=", "/=", "%=", "//=", "==", "!=", "<", "<=", ">", ">=", "?", "?//", ":", ";", "(", ")", "[", "]", "{", "}", ".[", ".[]", "?//", "..?",
+	"\xff", "\xc2", "\xe2\x82", "\xf0\x9f", "\x80", "a\xffb", "$\xc3", ".\xe6\x97", "\"\xe2\x82\"",
 	"&", "^", "あ", "😀", "@", "#c", "$", "$$", "1.2.3", "0x1", "\"", "'", "\\", "!", "~", "`", "def .:", "label .", ". as .", "{.}", "{a:1, .}", ". . .", "reduce . as .", "$__prog_args", "as [$a, .]", "::", "f::", "..a", ".. .", ".\"a\"", ".[\"a\"]?",
 }
